@@ -53,7 +53,38 @@ func runC12(c *Ctx) {
 		return
 	}
 	isStartCtx := func(v ssa.Value) bool { return DerivesOnly(v, false, IsResultOf(startWC, 0)) }
-	isRunCtx := func(v ssa.Value) bool { return DerivesOnly(v, false, IsResultOf(runWC, 0)) }
+	// the run context itself, or a context parameter that receives it at every call site of its function
+	var isRunCtxD func(v ssa.Value, depth int) bool
+	isRunCtxD = func(v ssa.Value, depth int) bool {
+		if DerivesOnly(v, false, IsResultOf(runWC, 0)) {
+			return true
+		}
+		if depth > 3 {
+			return false
+		}
+		pr, ok := Strip(v).(*ssa.Parameter)
+		if !ok {
+			return false
+		}
+		idx := -1
+		for i, q := range pr.Parent().Params {
+			if q == pr {
+				idx = i
+			}
+		}
+		sites := P.StaticCallSites(pr.Parent())
+		if idx < 0 || len(sites) == 0 {
+			return false
+		}
+		for _, s := range sites {
+			cc := CC(s)
+			if cc == nil || idx >= len(cc.Args) || !isRunCtxD(cc.Args[idx], depth+1) {
+				return false
+			}
+		}
+		return true
+	}
+	isRunCtx := func(v ssa.Value) bool { return isRunCtxD(v, 0) }
 
 	// creation events
 	createsInstance := func(in ssa.Instruction) bool {
@@ -279,28 +310,31 @@ func runC12(c *Ctx) {
 				}
 			})
 		}
-		c.Floor("O12.3", "call sites of the start context's cancel", nStart, 2)
+		c.Floor("O12.3", "call sites of the start context's cancel", nStart, 1)
 		c.Floor("O12.4", "call sites of the run context's cancel", nRun, 1)
 		// instances run under the run context
 		n := 0
-		for _, g := range WithClosures(si) {
+		for _, g := range PkgFuncs(sp) {
+			if !IsProdFile(P.File(g.Pos())) {
+				continue
+			}
 			EachInstr(g, func(in ssa.Instruction) {
-				cl, ok := in.(*ssa.Call)
+				cl, ok := in.(ssa.CallInstruction)
 				if !ok {
 					return
 				}
-				sc := cl.Call.StaticCallee()
+				sc := cl.Common().StaticCallee()
 				if sc == instRun {
 					n++
-					c.Check(isRunCtx(cl.Call.Args[1]), "O12.4", fk(g)+":instance-runs-under-run-context", cl.Pos(), "instance.Run must get the run context: the end of instance start must not stop it")
+					c.Check(isRunCtx(cl.Common().Args[1]), "O12.4", fk(g)+":instance-runs-under-run-context", cl.Pos(), "instance.Run must get the run context: the end of instance start must not stop it")
 				}
 				if sc == runNew || sc == newInst {
 					n++
-					c.Check(isRunCtx(cl.Call.Args[0]), "O12.4", fk(g)+":instance-runs-under-run-context", cl.Pos(), "instances are created/run under the run context, not the start context")
+					c.Check(isRunCtx(cl.Common().Args[0]), "O12.4", fk(g)+":instance-runs-under-run-context", cl.Pos(), "instances are created/run under the run context, not the start context")
 				}
 			})
 		}
-		c.Floor("O12.4", "instance run/creation calls checked for their context", n, 3)
+		c.Floor("O12.4", "instance run/creation calls checked for their context", n, 2)
 	}
 	// ---- O12.5
 	c12InstanceStep(c)
